@@ -27,17 +27,26 @@ pub struct RawAny {
     pub injections: Vec<(u8, u16, u16)>,
     /// map all names into a 3-name pool first (many simultaneous clashes of the same kind)
     pub collapse: bool,
+    /// adversarial identifier assignment (helper names and their digit-suffixed forms: State, State2, State3 ...)
+    pub adversarial: bool,
 }
 
 const ALL_FAMILIES: &[u8] = &[0, 0, 0, 1, 2, 3, 4, 5, 6, 7];
 
 fn raw_any() -> impl Strategy<Value = RawAny> {
     (raw_text(ALL_FAMILIES), proptest::collection::vec((0u8..16, any::<u16>(), any::<u16>()), 0..=3), prop::bool::weighted(0.1))
-        .prop_map(|(text, injections, collapse)| RawAny { text, injections, collapse })
+        .prop_map(|(text, injections, collapse)| RawAny { text, injections, collapse, adversarial: false })
 }
 
 /// The text of a case and a label for its origin.
 fn any_text(raw: &RawAny) -> (String, &'static str) {
+    if raw.adversarial && raw.text.family == 0 {
+        let (sp, _) = crate::gen::build(&raw.text.grammar);
+        let mut ch = crate::layout::Chooser::new(&raw.text.decor);
+        let adv = super::hygiene::adversarial_naming(&sp, &mut ch);
+        let file = crate::spec::to_rfile(&sp, &adv.naming);
+        return (layout::render(&file.atoms(), &raw.text.layout).text, "family:adversarially-named-file");
+    }
     if raw.text.family == 0 && (!raw.injections.is_empty() || raw.collapse) {
         let opts = crate::textgen::DecorOpts { attrs: true, types: true, pool_names: true, max_type_depth: 3 };
         let (_, _, mut file) = super::frontend::decorated_file(&raw.text, opts);
@@ -479,7 +488,14 @@ fn raw_c14() -> impl Strategy<Value = RawAny> {
                 // independent violations
                 _ => {}
             }
-            RawAny { text, injections, collapse }
+            // a quarter of the violation-free cases under an adversarial naming: the choice of fresh helper names
+            // must not depend on the iteration order of the identifier set
+            let adversarial = mode == 0 && text.soup.first().map_or(false, |x| x % 2 == 0);
+            if adversarial {
+                text.family = 0;
+                text.grammar.source |= 2;
+            }
+            RawAny { text, injections, collapse, adversarial }
         })
 }
 
